@@ -71,26 +71,26 @@ theorem entityPos_target (fmt : P.Fmt) (s : Array Nat) (l : PEnt) (hl : EntFacts
     obtain ⟨ha, hb⟩ := hpc a b hpcv
     exact .shifted a b k hpcv (by rw [ha]; exact hget) (by omega) (by omega) hlc
 
-/-- the position of one result of the checker of a covered format, resolved on a parsed entry -/
-theorem resolve_target (fmt : P.Fmt) (ck : CheckerKind) (hck : checkerOf fmt = some ck) (s : Array Nat)
-    (locale : Option Text) (r l : PEnt) (hl : EntFacts fmt s l) (rs : List CheckRes)
-    (hrun : runChecker ck locale r l = .ok rs) (c : CheckRes) (hc : c ∈ rs) (lc : Int × Int)
+/-- the position of one result of the checker of a covered format (ini / inc / po / properties), resolved on a parsed
+    entry.  `ck` is ANY checker object of the class `getChecker` picks for the format: whatever its `locale`, its XML
+    parser and its reference values (the last two are only read by `DTDChecker`). -/
+theorem resolve_target (fmt : P.Fmt) (hfd : fmt ≠ .dtd) (ck : CkCtx) (hck : ck.kind = checkerOf fmt) (s : Array Nat)
+    (r l : PEnt) (hl : EntFacts fmt s l) (rs : List CheckRes)
+    (hrun : runChecker ck r l = .ok rs) (c : CheckRes) (hc : c ∈ rs) (lc : Int × Int)
     (hres : resolveCheckPos s .plain l.entry c.pos = some lc) :
     Target s l.entry lc ∧
     ((∃ n, c.pos = .offset n) → ∃ p, l.entry.s ≤ p ∧ p ≤ l.entry.e ∧ lc = castLC (cursor s p)) := by
-  cases ck with
-  | base =>
-    simp only [runChecker, Except.ok.injEq] at hrun
+  have hk : ck.kind = .base ∨ (ck.kind = .properties ∧ fmt = .properties) := by
+    cases fmt <;> simp_all [checkerOf]
+  rcases hk with hb | ⟨hp, hfmt⟩
+  · simp only [runChecker, hb, Except.ok.injEq] at hrun
     subst hrun
     simp only [runBase, List.mem_map] at hc
     obtain ⟨x, hx, rfl⟩ := hc
     have := baseCheck_pos l.all.toArray x hx
     exact ⟨entityPos_target fmt s l hl x.pos (by simpa using this) lc hres, fun ⟨n, hn⟩ => by simp at hn⟩
-  | properties =>
-    have hfmt : fmt = .properties := by
-      cases fmt <;> simp [checkerOf] at hck ⊢
-    subst hfmt
-    simp only [runChecker, runProps] at hrun
+  · subst hfmt
+    simp only [runChecker, hp, runProps] at hrun
     split at hrun
     · cases hrun
     · split at hrun
